@@ -481,7 +481,40 @@ DIValid(kind, c) ==
     [] OTHER -> TRUE
 
 ----------------------------------------------------------------------------
-Families == <<GV, FN, FD, CALL, INVOKE, MEM, ARITH, TERM, CONSTS, TYPES, MODLVL>> \o DIFams
+\* Non-canonical spellings of whole modules (C02: one parse+print normalises; LLVM does not
+\* arbitrate all of them, e.g. s0x literals)
+SPELL == Fam("spell",
+  "",
+  "{text}\n",
+  << Slot("text", <<
+       "@a = global i32 u0x1000\n@b = global i32 4096\n@c = global i8 s0xFF\n@d = global i8 -1\n@e = global i64 u0xFFFFFFFFFFFFFFFF\n@f = global i16 s0x7FFF",
+       "@a = global i32 007\n@b = global i32 -0\n@c = global i1 1\n@d = global i1 0\n@e = global i1 true",
+       "@a = global double 1.0\n@b = global double 1.000000e+00\n@c = global double 0x3FF0000000000000\n@d = global double 1e0\n@e = global double 1.0E+0\n@f = global float 0x3FF0000000000000\n@g = global double -0.0\n@h = global double 0x8000000000000000",
+       "@a = global double 1.5e+300\n@b = global double 0x7FF0000000000000\n@c = global double 0xFFF0000000000000\n@d = global double 4.9406564584124654e-324\n@e = global float 1.25\n@f = global half 0xH3C00\n@g = global half 1.0",
+       "@\"g\" = global i32 0\n@\"h h\" = global i32* @\"g\"\n@\"\\67x\" = global i32* @g\n@\"0\" = global i32 1\n@\"1a\" = global i32 2",
+       "define i32 @\"f\"(i32 %\"x\", i32 %\"y z\") {\n\"entry\":\n  %\"r\" = add i32 %x, %\"y z\"\n  br label %\"the end\"\n\"the end\":\n  ret i32 %r\n}",
+       "define i32 @f(i32, i32) {\n  %3 = add i32 %0, %1\n  br label %4\n4:\n  ret i32 %3\n}",
+       "define i32 @f(i32 %0, i32 %1) {\n2:\n  %3 = add i32 %0, %1\n  br label %4\n\n4:                                                ; preds = %2\n  ret i32 %3\n}",
+       "define i32 @f(i32 %a, i32) {\n  add i32 %a, %0\n  add i32 %2, %2\n  ret i32 %3\n}",
+       "; a comment\n\n\n@g   =    global    i32   0   ; trailing\n\tdefine   void\t@f ( )   {\n ; inside\n\tret   void\n}\n; end",
+       "define void @f() { ret void }\ndefine void @g() { call void @f() ret void }",
+       "define void @main() {\n  call void @f()\n  ret void\n}\ndeclare void @f()\n@g = global i32* @h\n@h = global i32 0\n%T = type { %U* }\n%U = type { %T* }\n@t = global %T zeroinitializer",
+       "!1 = !{!0}\n!nm = !{!1}\n!0 = !{}\n!nm = !{!0}\n@g = global i32 0, !foo !1",
+       "attributes #1 = { nounwind }\ndeclare void @f() #1 #0\nattributes #0 = { cold }\ndefine void @g() nounwind cold {\n  ret void\n}",
+       "!5 = !{!9}\n!9 = !{}\n@g = global i32 0, !foo !5\n!llvm.x = !{!5, !9}",
+       "@a = global [3 x i8] c\"abc\"\n@b = global [3 x i8] [i8 97, i8 98, i8 99]\n@c = global [2 x i8] zeroinitializer\n@d = global [2 x i8] c\"\\00\\00\"\n@e = global { i32, i8 } zeroinitializer\n@f = global { i32, i8 } { i32 0, i8 0 }",
+       "declare void @f(i32)\ndefine void @g() {\n  call void (i32) @f(i32 1)\n  call void @f(i32 2)\n  tail call fastcc void @f(i32 3)\n  ret void\n}",
+       "target triple = \"x86_64-pc-linux-gnu\"\nsource_filename = \"x.c\"\ntarget datalayout = \"e\"\n@g = global i32 0",
+       "define void @f(i1 %c) {\n  br i1 %c, label %a, label %b\nb:\n  ret void\na:\n  br label %b\n}",
+       "@g = external global i32\n@h = extern_weak global i32\n@i = common global i32 0\n@j = private unnamed_addr constant [2 x i8] c\"a\\00\", align 1",
+       "%0 = type { i32 }\n%1 = type { %0 }\n@g = global %1 zeroinitializer\n%named = type { %0*, %1* }\n@h = global %named zeroinitializer",
+       "define <2 x i32> @f(<2 x i32> %v) {\n  %r = add <2 x i32> %v, <i32 1, i32 u0x10>\n  %s = shufflevector <2 x i32> %r, <2 x i32> undef, <2 x i32> <i32 1, i32 0>\n  ret <2 x i32> %s\n}",
+       "define i32 @f(i32 %x) {\n  switch i32 %x, label %d [ i32 0, label %a\n i32 u0x1000, label %a ]\na:\n  ret i32 1\nd:\n  ret i32 0\n}"
+     >>) >>,
+  {}, FALSE)
+
+----------------------------------------------------------------------------
+Families == <<GV, FN, FD, CALL, INVOKE, MEM, ARITH, TERM, CONSTS, TYPES, MODLVL, SPELL>> \o DIFams
 FamilyIdx == {k \in 1..Len(Families) : "*" \in FamilySet \/ Families[k].name \in FamilySet
                                         \/ ("DI*" \in FamilySet /\ Families[k].full)}
 
